@@ -346,7 +346,18 @@ pub fn run_sync_case(case: &SyncCase, ctx: &RunCtx, full_query: bool) -> SyncRes
                         let ids_a: BTreeSet<_> = content[0].nodes.iter().map(|x| &x.id).collect();
                         let ids_b: BTreeSet<_> = content[i].nodes.iter().map(|x| &x.id).collect();
                         for d in sa.symmetric_difference(&sb) {
-                            let room = d.room.clone().unwrap_or_default();
+                            let mut room = d.room.clone().unwrap_or_default();
+                            // the same row may sit in another room on the other peer (a moved row):
+                            // the difference is explained by whichever of the two rooms is not compared
+                            for other in content[0].nodes.iter().chain(content[i].nodes.iter()) {
+                                if other.id == d.id {
+                                    if let Some(r) = &other.room {
+                                        if logs_equal.get(r).copied().unwrap_or(false) {
+                                            room = r.clone();
+                                        }
+                                    }
+                                }
+                            }
                             let cause = match tomb_rooms.get(&d.id) {
                                 Some(rooms) if !rooms.contains(&room) => "moved-row-deleted-in-new-room".to_string(),
                                 Some(_) => blind_name(&room, "nodes-with-tombstone"),
